@@ -1,11 +1,12 @@
 \* C14: every step of the history generator is a step of the model-checked relation (and keeps the laws).
-\* Run with  -simulate num=N -depth 40 -workers 1.
+\* Run with  -simulate num=N -depth 40 -workers 1.  (lib/checks/c14.py writes this file per run; the switches
+\* "neg" (signed value codes), "self" (self-copies), "long" (255..257-character strings) are all on.)
 SPECIFICATION GenSpec
 CONSTANTS
   Pool = {"a", "b", "c"}
   MaxDim = 3
   Vals = {0, 1}
-  Kinds = {"dv", "uv", "iv", "sv", "mx", "tn", "dl"}
+  Kinds = {"dv", "uv", "iv", "sv", "mx", "tn", "dl", "neg", "self", "long"}
   Depth = 40
 INVARIANT Shape
 INVARIANT TypeOK
@@ -14,7 +15,11 @@ PROPERTY GenRefinesNext
 PROPERTY GuardLaw
 PROPERTY FrameLaw
 PROPERTY OorLaw
+PROPERTY ReadOnlyLaw
 PROPERTY CopyLaw
 PROPERTY GrowthLaw
 PROPERTY ShrinkLaw
+PROPERTY SortLaw
+PROPERTY ExtendLaw
+PROPERTY ResizeLaw
 CHECK_DEADLOCK FALSE
